@@ -306,3 +306,36 @@ func runComments(c *core.Check) {
 			}
 		})
 }
+
+
+// runReviewed: documents that reviewers of the unchanged tree pointed out, each with a few neighbours. Every one of them is a
+// product the grammar families above could form with one more terminal; they are kept as a family of their own so that the
+// check names the defect (or its repair) on every run.
+func runReviewed(c *core.Check) {
+	docs := [][2]string{
+		// end tags that may be omitted only before certain successors
+		{"body", "<ruby>漢<rt>kan</rt>字<rt>ji</rt></ruby>"}, {"body", "<ruby>漢<rp>(</rp><rt>kan</rt><rp>)</rp>字</ruby>"}, {"body", "<ruby>a<rt>b</rt></ruby>c"},
+		{"body", "<select><optgroup label=a><option>1</optgroup><!-- x --><option>2</select>"}, {"body", "<select><optgroup label=a><option>1</optgroup> <option>2</select>"}, {"body", "<select><optgroup label=a><option>1</optgroup><optgroup label=b><option>2</select>"},
+		// a p element inside elements whose end tag does not close it
+		{"body", "<my-el><p>a</p></my-el><span>b</span>"}, {"body", "<slot><p>a</p></slot><span>b</span>"}, {"body", "<x-y><p>a</p> </x-y>b"}, {"body", "<canvas><p>a</p></canvas><span>b</span>"}, {"body", "<object><p>a</p></object><span>b</span>"}, {"body", "<video><p>a</p></video><span>b</span>"}, {"body", "<dialog><p>a</p></dialog><span>b</span>"}, {"body", "<details><summary>s</summary><p>a</p></details><span>b</span>"}, {"body", "<button><p>a</p></button><span>b</span>"},
+		// text that becomes a character reference when a comment between its parts is dropped
+		{"body", "<p>a &amp;<!---->lt; b</p>"}, {"body", "<p>a &<!---->amp; b</p>"}, {"body", "<p>a &am<!--x-->p; b</p>"}, {"body", "<p title=\"&amp;lt;\">a</p>"},
+		// raw text elements with attributes of frameworks
+		{"document", "<!doctype html><html><head><title>t</title><style amp-boilerplate>a{content:\"&amp;   x\"}</style></head><body><p>x</p></body></html>"}, {"document", "<!doctype html><html><head><title>t</title><style amp-custom>a{content:\"&lt;  x\"}</style></head><body><p>x</p></body></html>"},
+		// the start tag of body before elements that would otherwise go to head
+		{"document", "<!doctype html><html><head><title>x</title></head><body><script>a()</script><p>x</body></html>"}, {"document", "<!doctype html><html><head><title>x</title></head><body><style>a{}</style><p>x</body></html>"}, {"document", "<!doctype html><html><head><title>x</title></head><body><link rel=stylesheet href=a><p>x</body></html>"}, {"document", "<!doctype html><html><head><title>x</title></head><body><meta itemprop=a content=b><p>x</body></html>"}, {"document", "<!doctype html><html><head><title>x</title></head><body><template><p>t</p></template><p>x</body></html>"}, {"document", "<!doctype html><html><head><title>x</title></head><body><noscript><p>n</p></noscript><p>x</body></html>"},
+		// values that are submitted as written
+		{"body", "<input type=radio name=a value=ON>"}, {"body", "<input type=radio name=a value=on>"}, {"body", "<input type=checkbox name=a value=On>"}, {"body", "<input type=radio name=a value=\" on\">"},
+		// elements that are not rendered, between words
+		{"body", "<p>a <style>b{color:red}</style> c"}, {"body", "<p>a <script>x()</script> c"}, {"body", "<p>a <template>t</template> c"}, {"body", "<p>a <link rel=stylesheet href=a> c"}, {"body", "<p>a <meta itemprop=a content=b> c"},
+		// comments that are kept, next to tags that are not written
+		{"document", "<!doctype html><html><head><title>t</title></head><body><!-- c --><p>x</body><!-- d --></html>"}, {"document", "<!doctype html><html><head><title>t</title></head><!-- e --><body><p>x</body></html><!-- f -->"},
+	}
+	runFamily(c, "reviewed", fmt.Sprintf("%d documents pointed out by reviewers, with neighbours", len(docs)), 0, func(emit func(ctx, text string) bool) {
+		for _, d := range docs {
+			if !emit(d[0], d[1]) {
+				return
+			}
+		}
+	})
+}
